@@ -52,6 +52,16 @@ pub open spec fn resp_for(req: Packet, m: Packet) -> bool {
 '''
 
 
+# variants: the full unit (C19) and two smaller ones that leave out what their property does not depend on, so that an edit
+# of the closure-heavy getters (get_content_format, get_observe_flag) cannot leave C07 or C15 undecided
+VARIANTS = {
+    'resp': (['from_packet', 'apply_from_error', 'set_method', 'get_method', 'get_observe_flag', 'set_observe_flag'], ['set_content_format', 'get_content_format']),
+    'resp7': (['from_packet', 'apply_from_error'], ['set_content_format']),
+    'resp15': ([], []),
+}
+_CUR = {'req': VARIANTS['resp'][0]}
+
+
 def extra_items(u):
     u.items('error.rs', 'pub struct HandlingError', 'pub struct InvalidContentFormat', 'pub struct InvalidObserve')
     u.items('packet.rs', 'pub enum ContentFormat', 'impl TryFrom<usize> for ContentFormat', 'impl From<ContentFormat> for usize',
@@ -60,23 +70,39 @@ def extra_items(u):
     u.impl_fns('response.rs', 'impl CoapResponse', ['new', 'set_status', 'get_status'])
     u.item('request.rs', 'pub struct CoapRequest<Endpoint>')
     u.item('observe.rs', 'pub fn create_notification')
-    u.impl_fns('request.rs', 'impl<Endpoint> CoapRequest<Endpoint>', ['from_packet', 'apply_from_error', 'set_method', 'get_method', 'get_observe_flag', 'set_observe_flag'])
+    if _CUR['req']:
+        u.impl_fns('request.rs', 'impl<Endpoint> CoapRequest<Endpoint>', _CUR['req'])
 
 
-def build(repo):
+def build(repo, variant='resp'):
     R = common.registry
-    u = Unit(NAME, repo)
-    acc.populate(u, extra_items=extra_items, extra_packet_fns=['set_content_format', 'get_content_format'],
+    u = Unit(variant, repo)
+    req_fns, pkt_fns = VARIANTS[variant]
+    _CUR['req'] = req_fns
+    acc.populate(u, extra_items=extra_items, extra_packet_fns=pkt_fns,
                  extra_spec=R.content_format_spec() + R.observe_spec() + SPEC)
     u.rule('derive-drop:Debug/Clone on CoapRequest', r'#\[derive\(Clone, Debug, PartialEq\)\]\s*pub struct (CoapRequest<Endpoint>|CoapResponse)', r'pub struct \1', 2)
     RS = 'impl CoapResponse'
     RQ = 'impl<Endpoint> CoapRequest<Endpoint>'
+    P = 'impl Packet'
+    present = set(req_fns) | set(pkt_fns)
+
+    class Guarded:
+        # annotation calls for functions that this variant does not contain are skipped
+        def __getattr__(self, name):
+            f = getattr(u, name)
+            def g(fnref, *a, **k):
+                if isinstance(fnref, tuple) and fnref[0] in (RQ, P) and fnref[1] in ('from_packet', 'apply_from_error', 'set_method', 'get_method', 'get_observe_flag', 'set_observe_flag', 'set_content_format', 'get_content_format') and fnref[1] not in present:
+                    return None
+                return f(fnref, *a, **k)
+            return g
+    g = Guarded()
     u.contract((RS, 'new'), '''        requires request.token@.len() <= 8
         ensures
             // prepared iff the request is Confirmable (0) or Non-confirmable (1)
             r is Some <==> type_bits_of(request.header.ver_type_tkl) <= 1,
             r is Some ==> resp_for(*request, r->0.message)''', props=['C07'])
-    u.contract((RQ, 'from_packet'), '''        requires packet.token@.len() <= 8
+    g.contract((RQ, 'from_packet'), '''        requires packet.token@.len() <= 8
         ensures r.message == packet, r.source == Some(source),
             r.response is Some <==> type_bits_of(packet.header.ver_type_tkl) <= 1,
             r.response is Some ==> resp_for(packet, r.response->0.message)''', props=['C07'])
@@ -84,11 +110,11 @@ def build(repo):
             final(self).message.header.ver_type_tkl == old(self).message.header.ver_type_tkl, final(self).message.header.message_id == old(self).message.header.message_id,
             final(self).message.token == old(self).message.token, final(self).message.options == old(self).message.options, final(self).message.payload == old(self).message.payload''', props=['C19'])
     u.contract((RS, 'get_status'), '        ensures *r == status_of(self.message.header.code)', props=['C19'])
-    u.contract((RQ, 'set_method'), '''        ensures final(self).message.header.code == MessageClass::Request(method),
+    g.contract((RQ, 'set_method'), '''        ensures final(self).message.header.code == MessageClass::Request(method),
             final(self).message.header.ver_type_tkl == old(self).message.header.ver_type_tkl, final(self).message.header.message_id == old(self).message.header.message_id,
             final(self).message.token == old(self).message.token, final(self).message.options == old(self).message.options, final(self).message.payload == old(self).message.payload,
             final(self).response == old(self).response, final(self).source == old(self).source''', props=['C19'])
-    u.contract((RQ, 'get_method'), '        ensures *r == method_of(self.message.header.code)', props=['C19'])
+    g.contract((RQ, 'get_method'), '        ensures *r == method_of(self.message.header.code)', props=['C19'])
     u.contract('create_notification', '''    requires token@.len() <= 8
     ensures
         ver_of(r.header.ver_type_tkl) == 1,
@@ -99,23 +125,23 @@ def build(repo):
         // a single Observe option carrying the sequence number as a minimal uint
         opts_view(r.options) == Map::<u16, Seq<Seq<u8>>>::empty().insert(6, seq![uint_be_min(sequence as nat)])''', props=['C15'])
     P = 'impl Packet'
-    u.contract((P, 'set_content_format'), '''        ensures opts_view(final(self).options) == opts_view(old(self).options).insert(12, seq![uint_be_min(usize_of_cf(cf) as nat)]),
+    g.contract((P, 'set_content_format'), '''        ensures opts_view(final(self).options) == opts_view(old(self).options).insert(12, seq![uint_be_min(usize_of_cf(cf) as nat)]),
             same_but_options(*final(self), *old(self))''', props=['C19', 'C07'])
-    u.body_start((P, 'set_content_format'), '        proof { lemma_cf_fits_u16(cf); }')
-    u.contract((P, 'get_content_format'), '''        ensures
+    g.body_start((P, 'set_content_format'), '        proof { lemma_cf_fits_u16(cf); }')
+    g.contract((P, 'get_content_format'), '''        ensures
             // a value of at most 2 bytes (what the setter stores) reads back as its registry entry ...
             opts_view(self.options).contains_key(12) && opts_view(self.options)[12].len() > 0 && opts_view(self.options)[12][0].len() <= 2
                 ==> r == cf_of_view(opts_view(self.options)),
             // ... nothing else is ever reported as a named format it is not
             r is Some ==> opts_view(self.options).contains_key(12) && opts_view(self.options)[12].len() > 0
                 && usize_of_cf(r->0) == be_val(opts_view(self.options)[12][0])''', props=['C19'])
-    u.replace_in((P, 'get_content_format'), 'R18:closure-contract-1', r'\|option\| option\.ok\(\)',
+    g.replace_in((P, 'get_content_format'), 'R18:closure-contract-1', r'\|option\| option\.ok\(\)',
                  '|option: Result<OptionValueU16, IncompatibleOptionValueFormat>| -> (o: Option<OptionValueU16>) ensures option is Ok ==> o == Some(option->Ok_0), option is Err ==> o is None { option.ok() }')
-    u.replace_in((P, 'get_content_format'), 'R18:closure-contract-2', r'\|value\| usize::from\(value\.0\)',
+    g.replace_in((P, 'get_content_format'), 'R18:closure-contract-2', r'\|value\| usize::from\(value\.0\)',
                  '|value: OptionValueU16| -> (o: usize) ensures o == value.0 as usize { usize::from(value.0) }')
-    u.replace_in((P, 'get_content_format'), 'R18:closure-contract-3', r'\|value\| ContentFormat::try_from\(value\)\.ok\(\)',
+    g.replace_in((P, 'get_content_format'), 'R18:closure-contract-3', r'\|value\| ContentFormat::try_from\(value\)\.ok\(\)',
                  '|value: usize| -> (o: Option<ContentFormat>) ensures o == opt_of_result(cf_of_usize(value)) { ContentFormat::try_from(value).ok() }')
-    u.contract((RQ, 'apply_from_error'), '''        requires old(self).response is Some ==> old(self).response->0.message.token@.len() <= 8
+    g.contract((RQ, 'apply_from_error'), '''        requires old(self).response is Some ==> old(self).response->0.message.token@.len() <= 8
         ensures
             r == (old(self).response is Some && error.code is Some),
             final(self).message == old(self).message, final(self).source == old(self).source,
@@ -128,16 +154,16 @@ def build(repo):
                 &&& m1.payload@ == utf8_of(error.message)
                 &&& opts_view(m1.options) == opts_view(m0.options).insert(12, seq![uint_be_min(0)])
             })''', props=['C07'])
-    u.contract((RQ, 'set_observe_flag'), '''        ensures opts_view(final(self).message.options) == opts_view(old(self).message.options).insert(6, seq![uint_be_min(usize_of_observe(flag) as nat)]),
+    g.contract((RQ, 'set_observe_flag'), '''        ensures opts_view(final(self).message.options) == opts_view(old(self).message.options).insert(6, seq![uint_be_min(usize_of_observe(flag) as nat)]),
             same_but_options(final(self).message, old(self).message), final(self).response == old(self).response, final(self).source == old(self).source''', props=['C19'])
-    u.contract((RQ, 'get_observe_flag'), '''        ensures r is Some <==> (opts_view(self.message.options).contains_key(6) && opts_view(self.message.options)[6].len() > 0),
+    g.contract((RQ, 'get_observe_flag'), '''        ensures r is Some <==> (opts_view(self.message.options).contains_key(6) && opts_view(self.message.options)[6].len() > 0),
             r is Some ==> ({ let b = opts_view(self.message.options)[6][0];
                 // up to 4 bytes (what the setter stores): the registry entry of the value; never a named action it is not
                 (b.len() <= 4 ==> r->0 == observe_of_usize(be_val(b) as usize)) && (r->0 is Ok ==> usize_of_observe(r->0->Ok_0) == be_val(b)) })''', props=['C19'])
     # inner closures first (their positions are found by pattern, bodies stay verbatim)
-    u.closure((RQ, 'get_observe_flag'), r'\|value\|', 'value: usize', 'y: Result<ObserveOption, InvalidObserve>', 'ensures y == observe_of_usize(value)', nth=1, count=2)
-    u.closure((RQ, 'get_observe_flag'), r'\|value\|', 'value: u32', 'x: usize', 'ensures x == value as usize', nth=0, count=1)
-    u.closure((RQ, 'get_observe_flag'), r'\|observe\|', 'observe: Result<u32, IncompatibleOptionValueFormat>', 'o: Result<ObserveOption, InvalidObserve>',
+    g.closure((RQ, 'get_observe_flag'), r'\|value\|', 'value: usize', 'y: Result<ObserveOption, InvalidObserve>', 'ensures y == observe_of_usize(value)', nth=1, count=2)
+    g.closure((RQ, 'get_observe_flag'), r'\|value\|', 'value: u32', 'x: usize', 'ensures x == value as usize', nth=0, count=1)
+    g.closure((RQ, 'get_observe_flag'), r'\|observe\|', 'observe: Result<u32, IncompatibleOptionValueFormat>', 'o: Result<ObserveOption, InvalidObserve>',
               'ensures observe is Err ==> o is Err, observe is Ok ==> o == observe_of_usize(observe->Ok_0 as usize)')
     u.finish(common.HEAD)
     return u
